@@ -1,3 +1,63 @@
-From Flodym Require Import Base.ND.
-Theorem placeholder : True. Proof. exact I. Qed.
-Print Assumptions placeholder.
+(* C01 — arithmetic between arrays matches dimensions by label, never by axis position.
+   Statements only.  Generic over every commutative ring; instantiated at the reals. *)
+From Coq Require Import List Arith Ring_theory Reals RealField.
+Import ListNotations.
+From Flodym Require Import Base.ND Base.Env Np.Einsum Model.Dims Model.Array Proofs.ArrayLemmas Proofs.C01Proofs.
+From Flodym Require Corr.C01.
+
+(* x * y  (and x / y with g = reciprocal): for ALL ranks, dimension subsets, storage orders, lengths, values *)
+Theorem C01_product_by_label :
+  forall (R : Type) (rO rI : R) (radd rmul rsub : R -> R -> R) (ropp : R -> R),
+  ring_theory rO rI radd rmul rsub ropp eq ->
+  forall (g : R -> R) (x y r : farr R) (e : env),
+  NoDup (aletters R x) -> NoDup (aletters R y) ->
+  mul_like R rO rI radd rmul g x y = Ok r ->
+  (forall l, In l (aletters R r) ->
+     lookup e l < lookup (sizes R [(aletters R x, a_nd R x); (aletters R y, mk_nd (dshape (adims y)) (map g (avals y)))]) l) ->
+  adims r = adims x ++ filter (fun d => negb (memb (dletter d) (aletters R x))) (adims y)
+  /\ den R rO r e = rmul (den R rO x e) (den_nd R rO (aletters R y) (mk_nd (dshape (adims y)) (map g (avals y))) e).
+Proof. exact mul_spec. Qed.
+Print Assumptions C01_product_by_label.
+
+(* x + y, x - y, minimum, maximum *)
+Theorem C01_common_dims_after_summing_the_rest :
+  forall (R : Type) (rO rI : R) (radd rmul rsub : R -> R -> R) (ropp : R -> R),
+  ring_theory rO rI radd rmul rsub ropp eq ->
+  forall (f : R -> R -> R) (x y r : farr R) (e : env),
+  wf R x -> wf R y -> binop_common R rO rI radd rmul f x y = Ok r ->
+  in_range (lsizes R x) e (aletters R r) -> in_range (lsizes R y) e (aletters R r) ->
+  adims r = filter (fun d => memb (dletter d) (aletters R y)) (adims x)
+  /\ den R rO r e = f (sum_env rO radd (sized (lsizes R x) (others R x (aletters R r))) (fun e' => den R rO x (e' ++ e)))
+                      (sum_env rO radd (sized (lsizes R y) (others R y (aletters R r))) (fun e' => den R rO y (e' ++ e))).
+Proof. exact binop_common_spec. Qed.
+Print Assumptions C01_common_dims_after_summing_the_rest.
+
+Theorem C01_power_requires_exponent_dims_among_base_dims :
+  forall (R : Type) (rO rI : R) (radd rmul : R -> R -> R) (p : R -> R -> R) (x y : farr R) l,
+  In l (aletters R y) -> ~ In l (aletters R x) -> pow_like R rO rI radd rmul p x y = Err.
+Proof. exact pow_rejects. Qed.
+Print Assumptions C01_power_requires_exponent_dims_among_base_dims.
+
+Theorem C01_power_keeps_base_dims :
+  forall (R : Type) (rO rI : R) (radd rmul : R -> R -> R) (p : R -> R -> R) (x y r : farr R),
+  pow_like R rO rI radd rmul p x y = Ok r -> adims r = adims x.
+Proof. exact pow_keeps_dims. Qed.
+Print Assumptions C01_power_keeps_base_dims.
+
+(* a plain number behaves as an array of x's own dimensions filled with that number (also reflected) *)
+Theorem C01_number_is_full_array :
+  forall b x c, C01.run x (C01.OBin b (C01.ONum c)) = C01.run_bin b x (full Qcanon.Qc (adims x) c).
+Proof. reflexivity. Qed.
+Print Assumptions C01_number_is_full_array.
+
+(* for ALL real values *)
+Theorem C01_product_by_label_reals :
+  forall (g : R -> R) (x y r : farr R) (e : env),
+  NoDup (aletters R x) -> NoDup (aletters R y) ->
+  mul_like R 0%R 1%R Rplus Rmult g x y = Ok r ->
+  (forall l, In l (aletters R r) ->
+     lookup e l < lookup (sizes R [(aletters R x, a_nd R x); (aletters R y, mk_nd (dshape (adims y)) (map g (avals y)))]) l) ->
+  adims r = adims x ++ filter (fun d => negb (memb (dletter d) (aletters R x))) (adims y)
+  /\ den R 0%R r e = (den R 0%R x e * den_nd R 0%R (aletters R y) (mk_nd (dshape (adims y)) (map g (avals y))) e)%R.
+Proof. exact (mul_spec R 0%R 1%R Rplus Rmult Rminus Ropp RTheory). Qed.
+Print Assumptions C01_product_by_label_reals.
